@@ -399,6 +399,9 @@ def parseMachine (cfg : J) : Except PErr Machine := do
     | some (.num n) => pure n.toNat
     | some _ => throw "RAW:ValueError"
   let (root, st) ← (parseState cfg mid mid [] true).run {}
-  pure { id := mid, root, maxIterations := maxIt, customIds := st.customIds }
+  let ctx0 : List (String × Int) := match cfg.get? "context" with
+    | some (.obj kvs) => kvs.filterMap (fun kv => match kv.2 with | .num n => some (kv.1, n) | _ => none)
+    | _ => []
+  pure { id := mid, root, maxIterations := maxIt, customIds := st.customIds, ctx0 }
 
 end XSM
